@@ -9,8 +9,10 @@ open Lean IsoVerif.Driver IsoVerif.Model.Resume
 def streamName : Stream → String
   | .bed => "bed" | .assign => "assign" | .gtf => "gtf" | .r2t => "r2t" | .ext => "ext" | .sq => "sq"
   | .gene => "gene" | .tr => "tr" | .model => "model" | .geneG => "geneG" | .trG => "trG" | .modelG => "modelG"
+  | .exon => "exon" | .intron => "intron" | .exonG => "exonG" | .intronG => "intronG"
 
-def allStreams : List Stream := [.bed, .assign, .gtf, .r2t, .ext, .sq, .gene, .tr, .model, .geneG, .trG, .modelG]
+def allStreams : List Stream := [.bed, .assign, .gtf, .r2t, .ext, .sq, .gene, .tr, .model, .geneG, .trG, .modelG,
+                                 .exon, .intron, .exonG, .intronG]
 
 def streamOf (s : String) : Except String Stream :=
   match allStreams.find? (fun x => streamName x == s) with
@@ -37,6 +39,7 @@ def ofPath : Path → Json
   | .final s => Json.arr #[ofStr "final", ofStr (streamName s)]
   | .finalLin s => Json.arr #[ofStr "finalLin", ofStr (streamName s)]
   | .tpm s => Json.arr #[ofStr "tpm", ofStr (streamName s)]
+  | .finalGz s => Json.arr #[ofStr "finalGz", ofStr (streamName s)]
 
 def jPath (j : Json) : Except String Path := do
   let a ← j.getArr?
@@ -67,6 +70,7 @@ def jPath (j : Json) : Except String Path := do
   | "final" => return .final (← st)
   | "finalLin" => return .finalLin (← st)
   | "tpm" => return .tpm (← st)
+  | "finalGz" => return .finalGz (← st)
   | _ => throw s!"unknown path kind {k}"
 
 def ofTok : Tok → Json
@@ -110,7 +114,14 @@ def jCfg (j : Json) : Except String Cfg := do
          bchrs := ← jList jNat (← arg j "bchrs"), genedb := ← jBool (← arg j "genedb"), rg := ← jRG (← arg j "rg"),
          keepTmp := ← jBool (← arg j "keepTmp"), unmapped := ← jBool (← arg j "unmapped"),
          fromSaves := ← jBoolD j "fromSaves" false, sqanti := ← jBoolD j "sqanti" false,
-         carried := ← jBoolD j "carried" false }
+         carried := ← jBoolD j "carried" false, countExons := ← jBoolD j "countExons" false,
+         noModel := ← jBoolD j "noModel" false, gzip := ← jBoolD j "gzip" false,
+         highMemory := ← jBoolD j "highMemory" false }
+
+/-- the configuration of the resumed run: optional fields `resumeHM` (`--resume --high_memory`; default: the killed run's
+    value, i.e. the same options) and `resumeKT` (`--resume --keep_tmp`) -/
+def jResumeCfg (j : Json) (cfg : Cfg) : Except String Cfg := do
+  pure (resumeCfg cfg (← jBoolD j "resumeHM" cfg.highMemory) (← jBoolD j "resumeKT" false))
 
 /-- a file system given as a list of [path, token] -/
 def jFS (j : Json) : Except String FS := do
@@ -224,8 +235,9 @@ def ops : List (String × Handler) := [
       let s2 ← jSched j "s2"
       let r1 ← jSched j "r1"
       let r2 ← jSched j "r2"
-      pure (Json.mkObj [("verdict", ofVerdict (verdictPoolFrom v cfg ord ord2 s1 s2 r1 r2 fs0 k)),
-                        ("resumed", ofPoolRes v cfg ord2 true r1 r2 (crashFSPool v cfg ord s1 s2 fs0 k))])),
+      let cfg2 ← jResumeCfg j cfg
+      pure (Json.mkObj [("verdict", ofVerdict (verdictPoolFromOpts v cfg ord ord2 cfg2.highMemory cfg2.keepTmp s1 s2 r1 r2 fs0 k)),
+                        ("resumed", ofPoolRes v cfg2 ord2 true r1 r2 (crashFSPool v cfg ord s1 s2 fs0 k))])),
   -- one run from a given file system
   ("run", fun j => do
       let v ← jVariant (← arg j "variant")
@@ -250,8 +262,10 @@ def ops : List (String × Handler) := [
       let ord2 ← jList jPath (← arg j "ord2")
       let k ← jNat (← arg j "k")
       let fs0 ← jFS0 j
-      let r := run v cfg ord2 true (crashFSFrom v cfg ord fs0 k)
-      pure (Json.mkObj [("verdict", ofVerdict (verdictFrom v cfg ord ord2 fs0 k)), ("resumed", ofRes cfg r)])),
+      let cfg2 ← jResumeCfg j cfg
+      let r := run v cfg2 ord2 true (crashFSFrom v cfg ord fs0 k)
+      pure (Json.mkObj [("verdict", ofVerdict (verdictFromOpts v cfg ord ord2 cfg2.highMemory cfg2.keepTmp fs0 k)),
+                        ("resumed", ofRes cfg r)])),
   -- verdicts for every crash index 0..len
   ("verdicts", fun j => do
       let v ← jVariant (← arg j "variant")
